@@ -160,8 +160,12 @@ JudgeGetStatusWire(o) ==
     ELSE << >>
 
 \* ---- monitor state -----------------------------------------------------------------------
+RECURSIVE FlattenPlan(_, _)
+FlattenPlan(plan, i) == IF i > Len(plan) THEN << >> ELSE plan[i] \o FlattenPlan(plan, i + 1)
+
 MonInit ==
-    [ pend   |-> << >>,     \* frames of each NoWait request whose ACK has not been consumed, in order
+    [ mwire  |-> << >>,     \* every frame the kernel queued and the client has not taken yet (X-ASYNC)
+      pend   |-> << >>,     \* frames of each NoWait request whose ACK has not been consumed, in order
       desync |-> FALSE,     \* a malformed or out-of-quantifier script left the socket in an unknown state
       setpid |-> FALSE,
       closed |-> FALSE,
@@ -217,6 +221,23 @@ StepOp(m0, o) ==
                             THEN << Flag("C17", "Close without SetPID sent a request") >>
                        ELSE << >>)
           ELSE << >>
+        \* beyond the listed properties (X-ASYNC): GetStatusAsync's request, and Receive handing out the
+        \* kernel's frames one at a time, in order, unchanged
+        w1 == m.mwire \o FlattenPlan(o.plan, 1)
+        fx ==
+          IF o.name = "GetStatusAsync" THEN
+               (IF Len(o.sent) # 1 \/ o.sent[1].type # AUDIT_GET \/ Len(o.sent[1].payload) # 0
+                   \/ o.sent[1].flags # (IF o.value.lo = 1 THEN NLM_F_REQUEST + NLM_F_ACK ELSE NLM_F_REQUEST)
+                THEN << Flag("X-ASYNC", "GetStatusAsync did not send an empty AUDIT_GET with REQUEST (and ACK only when asked)") >> ELSE << >>)
+               \o (IF o.pops # 0 \/ o.ret # "nil" THEN << Flag("X-ASYNC", "GetStatusAsync waited for or consumed a reply") >> ELSE << >>)
+          ELSE IF o.name = "Receive" THEN
+               IF Len(w1) = 0 THEN (IF o.ret = "nil" THEN << Flag("X-ASYNC", "Receive returned a message from an empty socket") >> ELSE << >>)
+               ELSE LET f == w1[1] IN
+                    IF f.k = "msg" THEN
+                         (IF o.ret # "nil" \/ o.rtype # f.type \/ o.data # << f.payload >> \/ o.pops # 1
+                          THEN << Flag("X-ASYNC", "Receive did not hand out the next kernel frame (type and payload) unchanged") >> ELSE << >>)
+                    ELSE (IF o.ret = "nil" THEN << Flag("X-ASYNC", "Receive returned a message although the read failed") >> ELSE << >>)
+          ELSE << >>
         \* next state
         ackv == AckOf(PlanAt(o.plan, 1), 1).v
         newPend ==
@@ -231,7 +252,10 @@ StepOp(m0, o) ==
                    \/ (o.name = "WaitForPendingACKs" /\ w.v \in {-1, -2})
                    \/ (o.name \in {"GetStatus", "GetRules", "DeleteRules"} /\ o.ret # "nil")
                    \/ (o.name = "WaitForPendingACKs" /\ o.pops # w.pops)
-    IN  [m EXCEPT !.flags = f08 \o f16 \o f17,
+                   \* the asynchronous API leaves and takes frames outside the request/ACK discipline
+                   \/ o.name \in {"GetStatusAsync", "Receive"}
+    IN  [m EXCEPT !.flags = f08 \o f16 \o f17 \o fx,
+                  !.mwire = SubSeq(w1, Min2(o.pops, Len(w1)) + 1, Len(w1)),
                   !.pend = newPend,
                   !.desync = @ \/ strange,
                   !.setpid = @ \/ o.name = "SetPID",
